@@ -380,6 +380,21 @@ impl Obj {
         catch(|| each!(self, o => o.sample()))
     }
 
+    /// Seed the (thread-local) RNG, then one bulk call: `sample_n(n)` (cols = 0) or
+    /// `sample_matrix(n / cols, cols)`. Bit patterns and the shape are returned.
+    pub fn bulk(&self, seed: u64, n: usize, cols: usize) -> Result<(Vec<u64>, usize, usize), String> {
+        catch(|| {
+            alea::set_seed(seed);
+            if cols == 0 {
+                let v = each!(self, o => o.sample_n(n));
+                (v.iter().map(|x| x.to_bits()).collect(), 1, v.len())
+            } else {
+                let m = each!(self, o => o.sample_matrix(n / cols, cols));
+                (m.data.iter().map(|x| x.to_bits()).collect(), m.nrows, m.ncols)
+            }
+        })
+    }
+
     /// Seed the (thread-local) RNG, then draw `n` values: all but the last 16 through `sample()`,
     /// the rest through one `sample_n` call. Bit patterns are returned.
     pub fn stream(&self, seed: u64, n: usize) -> Result<Vec<u64>, String> {
@@ -746,7 +761,7 @@ fn resolve_bulk(dist: u8, cur: &[f64], b: &Bulk) -> (Vec<f64>, Vec<String>) {
 
 /// A parameter vector that is valid and safe to sample whatever the selectors are (unrelated
 /// objects, re-synchronisation after a rejected bulk update).
-fn valid_params(dist: u8, a: u16, b: u16) -> Vec<f64> {
+pub fn valid_params(dist: u8, a: u16, b: u16) -> Vec<f64> {
     let sp = specs(dist);
     if is_bounds(dist) {
         let int = dist == DUNIF;
